@@ -27,7 +27,7 @@ ASSUMPTIONS = [
 
 MARKS = ["Onset", "Offset", "Inset"]
 NAMES = ["A", "a", "B/x", "B/X", "B/y"]
-DEFS = ["(Definition/A, (Red))", "(Definition/B/#, (Label/#))"]
+DEFS = ["(Definition/A, (Red))", "(Definition/B/#, (Label/#))", "(Definition/Stra\u00dfe, (Green))"]
 SINGLES = [(m, n) for m in MARKS for n in NAMES]
 
 
@@ -415,6 +415,18 @@ def special_files(ctx):
         files.append(([[(T0, group_text(("Onset", "A"), "250 ms"))], [(T0 + 0.25 + gap, group_text(("Offset", "A")))],
                        [(T0 + 0.25 + 2 * gap, group_text(("Offset", "A")))]],
                       [[("Onset", "A")], [("Offset", "A")], [("Offset", "A")]], "large-onsets"))
+    # rows 0.8 ns apart: the second joins the time point of the first, the third (1.6 ns after the first) starts a new one
+    on_, off_ = ("Onset", "A"), ("Offset", "A")
+    files.append(([[(5.0, group_text(on_)), (5.0000000008, group_text(off_))], [(5.0000000016, group_text(on_))],
+                   [(7.0, group_text(off_))]], [[on_, off_], [on_], [off_]], "near-ties"))
+    files.append(([[(5.0, group_text(on_))], [(5.0000000016, group_text(off_)), (5.0000000024, group_text(("Inset", "A")))],
+                   [(7.0, group_text(off_))]], [[on_], [off_, ("Inset", "A")], [off_]], "near-ties"))
+    # a definition name whose lower-case form and case-folded form differ
+    for spelling in ("Stra\u00dfe", "STRASSE", "stra\u00dfe"):
+        files.append(([[(1.0, group_text(("Onset", "Stra\u00dfe")))], [(2.0, group_text(("Inset", spelling)))],
+                       [(3.0, group_text(("Offset", spelling)))], [(4.0, group_text(("Offset", "Stra\u00dfe")))]],
+                      [[("Onset", "Stra\u00dfe")], [("Inset", spelling)], [("Offset", spelling)], [("Offset", "Stra\u00dfe")]],
+                      "non-ascii-name"))
     # marker rows that draw a warning only (extension, missing unit)
     for extra in ("Item/Gizmo", "Label/Abc", "(Item/Gizmo, Blue)"):
         for tail_ in (("Offset", "A"), ("Inset", "A")):
